@@ -5,11 +5,11 @@ From Coq Require Import ZifyBool ZifyN ZifyNat Permutation.
 Local Open Scope N_scope.
 
 (* state and trace after a history *)
-Definition after (cf : cfg) (h : list event) : state * trace := run_trace cf init [] h.
+Definition after (cf : cfg) (h : list event) : state * trace := run_trace cf (start cf) [] h.
 
-Lemma after_inv cf h st tr : wk_services cf -> after cf h = (st, tr) -> Inv cf st tr.
+Lemma after_inv cf h st tr : wk_services cf /\ wk_history h -> after cf h = (st, tr) -> Inv cf st tr.
 Proof.
-  intros W H. pose proof (reachable_inv cf h W) as I. unfold after in H. rewrite H in I. exact I.
+  intros [W Wh] H. pose proof (reachable_inv cf h W Wh) as I. unfold after in H. rewrite H in I. exact I.
 Qed.
 
 Lemma run_trace_app cf h1 : forall h2 st tr,
@@ -26,7 +26,7 @@ Proof.
 Qed.
 
 (* ---------------------------------------------------------------- every call meets at most one fate; the table is the ledger *)
-Theorem one_fate cf h st tr : wk_services cf -> after cf h = (st, tr) ->
+Theorem one_fate cf h st tr : wk_services cf /\ wk_history h -> after cf h = (st, tr) ->
   NoDup (fated tr) /\ (forall i, In i (fated tr) -> exists c, In c (calls tr) /\ c.(c_id) = i).
 Proof.
   intros W H. pose proof (after_inv cf h st tr W H) as I. split; [apply I|].
@@ -44,7 +44,7 @@ Proof.
   apply Hall. exact Hlt.
 Qed.
 
-Theorem ledger cf h st tr n : wk_services cf -> after cf h = (st, tr) ->
+Theorem ledger cf h st tr n : wk_services cf /\ wk_history h -> after cf h = (st, tr) ->
   pend_entries st.(st_pend) n = map entry_of (waiting tr n).
 Proof. intros W H. apply (i_ledger _ _ _ (after_inv cf h st tr W H)). Qed.
 
@@ -114,12 +114,14 @@ Proof.
     intros H. apply in_flat_map in H. destruct H as [q [_ H]]. apply no_spawn_fail in H. discriminate.
   - destruct (find_sid sid0 (st_pend st)); [|intros []]. simpl. intros [H|H]; [discriminate|].
     apply no_spawn_fail in H. discriminate.
+  - destruct (connected st c); [intros [H|[]]; discriminate | intros []].
+  - intros [].
 Qed.
 
 (* A process is started for n only when no call is waiting for n; the step starts exactly one process, for the
    call that arrives in this very step, and that call is waiting afterwards.  Hence: as long as calls wait for n
    (an activation of n is pending, by [ledger]), nothing further is started for n. *)
-Theorem spawn_once cf h st tr e sid n x : wk_services cf -> after cf h = (st, tr) ->
+Theorem spawn_once cf h st tr e sid n x : wk_services cf /\ wk_history h -> after cf h = (st, tr) ->
   In (OSpawn sid n x) (snd (step cf st e)) ->
   waiting tr n = [] /\
   snd (step cf st e) = [OSpawn sid n x] /\
@@ -133,7 +135,7 @@ Proof.
   destruct He as [[c [s [cl ->]]]|[c [s ->]]]; simpl; rewrite bname_eqb_refl; simpl; eexists; repeat split.
 Qed.
 
-Corollary no_spawn_while_waiting cf h st tr e sid n x : wk_services cf -> after cf h = (st, tr) ->
+Corollary no_spawn_while_waiting cf h st tr e sid n x : wk_services cf /\ wk_history h -> after cf h = (st, tr) ->
   waiting tr n <> [] -> ~ In (OSpawn sid n x) (snd (step cf st e)).
 Proof. intros W H Hw Hin. destruct (spawn_once cf h st tr e sid n x W H Hin) as [Hn _]. contradiction. Qed.
 
@@ -196,7 +198,7 @@ Proof.
   destruct (c_auto w), (conn (c_conn w)), (allowed w); reflexivity.
 Qed.
 
-Theorem held_once_in_order cf h st tr c s k : wk_services cf -> after cf h = (st, tr) ->
+Theorem held_once_in_order cf h st tr c s k : wk_services cf /\ wk_history h -> after cf h = (st, tr) ->
   connected st c = true -> assoc k st.(st_owners) = None ->
   let W := waiting tr (Wk k) in
   let o := snd (step cf st (ERequest c s k)) in
@@ -208,7 +210,7 @@ Theorem held_once_in_order cf h st tr c s k : wk_services cf -> after cf h = (st
   waiting (tr ++ [(ERequest c s k, o)]) (Wk k) = [].
 Proof.
   intros W H Hc Ho. pose proof (after_inv cf h st tr W H) as I. cbv zeta.
-  pose proof (step_inv cf st tr (ERequest c s k) W I) as I'.
+  pose proof (step_inv cf st tr (ERequest c s k) Logic.I I) as I'.
   simpl in I' |- *. rewrite Hc, Ho in I' |- *. unfold resolve, created in I' |- *. simpl in I' |- *.
   assert (names_of ((k, c) :: st_owners st) c = k :: names_of (st_owners st) c) as Hnames.
   { unfold names_of. simpl. rewrite N.eqb_refl. reflexivity. }
@@ -216,7 +218,8 @@ Proof.
   - apply find_pending_In in F as F'. destruct F' as [Hp Hname].
     pose proof (inv_entries cf st tr I p Hp) as He. rewrite Hname in He.
     set (st1 := {| st_conns := st_conns st; st_next_conn := st_next_conn st; st_owners := (k, c) :: st_owners st;
-                   st_pend := st_pend st; st_next_sid := st_next_sid st; st_next_id := st_next_id st |}) in *.
+                   st_pend := st_pend st; st_next_sid := st_next_sid st; st_next_id := st_next_id st;
+                   st_services := st_services st |}) in *.
     assert (forall x, connected st x = live tr x) as Hl by apply I.
     assert (created_outs st p ++ replay_outs cf st1 c p ++ [ODrv c s 1] =
             map started_to (filter (fun w => connected st w.(c_conn) && negb w.(c_auto)) (waiting tr (Wk k))) ++
@@ -253,7 +256,7 @@ Lemma waiting_after_fates tr e o n :
   waiting (tr ++ [(e, o)]) n = filter (fun c => negb (mem c.(c_id) (fates o))) (waiting tr n).
 Proof. intros Hlt Hc. rewrite waiting_snoc by exact Hlt. rewrite Hc. simpl. apply app_nil_r. Qed.
 
-Theorem timeout_each_waiter_once cf h st tr sid p : wk_services cf -> after cf h = (st, tr) ->
+Theorem timeout_each_waiter_once cf h st tr sid p : wk_services cf /\ wk_history h -> after cf h = (st, tr) ->
   find_sid sid st.(st_pend) = Some p ->
   let o := snd (step cf st (ETimeout sid)) in
   o = OKill sid :: map (fail_to tr ETimedOut) (waiting tr p.(p_name)) /\
@@ -295,7 +298,7 @@ Proof.
     simpl. apply IH; auto.
 Qed.
 
-Theorem failure_each_waiter_once cf h st tr sid r p er : wk_services cf -> after cf h = (st, tr) ->
+Theorem failure_each_waiter_once cf h st tr sid r p er : wk_services cf /\ wk_history h -> after cf h = (st, tr) ->
   find_sid sid st.(st_pend) = Some p -> child_error r = Some er ->
   let o := snd (step cf st (EChild sid r)) in
   let same := filter (fun q => p_exec q =? p_exec p) st.(st_pend) in
@@ -338,7 +341,7 @@ Proof.
 Qed.
 
 (* with Exec lines that are not shared, only the callers waiting for the failed process's own name are answered *)
-Corollary failure_own_name_only cf h st tr sid r p er : wk_services cf -> after cf h = (st, tr) ->
+Corollary failure_own_name_only cf h st tr sid r p er : wk_services cf /\ wk_history h -> after cf h = (st, tr) ->
   find_sid sid st.(st_pend) = Some p -> child_error r = Some er ->
   (forall q, In q st.(st_pend) -> p_exec q = p_exec p -> q = p) ->
   snd (step cf st (EChild sid r)) = map (fail_to tr er) (waiting tr p.(p_name)).
@@ -349,6 +352,67 @@ Proof.
   { apply filter_none. intros q Hq. apply filter_In in Hq. destruct Hq as [Hq E]. apply N.eqb_eq in E.
     rewrite (Hu q Hq E), Hsid, N.eqb_refl. reflexivity. }
   simpl. rewrite app_nil_r. apply (fail_outs_waiting cf st tr er p I Hp).
+Qed.
+
+(* ---------------------------------------------------------------- reloading the configuration *)
+(* ReloadConfig / SIGHUP and changes of the service directories answer nobody, start nothing and leave every pending
+   activation as it is; so (by the theorems above, which hold for histories containing such events) whatever was
+   pending before is still resolved exactly once afterwards *)
+Theorem reload_keeps_pending cf st tr e : (exists c s, e = EReload c s) \/ (exists l, e = ESetServices l) ->
+  (fst (step cf st e)).(st_pend) = st.(st_pend) /\
+  fates (snd (step cf st e)) = [] /\
+  (forall x, In x (snd (step cf st e)) -> is_spawn x = false) /\
+  ((forall i, In i (fated tr) -> i < n_calls tr) -> forall n, waiting (tr ++ [(e, snd (step cf st e))]) n = waiting tr n).
+Proof.
+  intros He.
+  assert (call_of (n_calls tr) e = [] /\ (fst (step cf st e)).(st_pend) = st.(st_pend) /\ fates (snd (step cf st e)) = [] /\
+          (forall x, In x (snd (step cf st e)) -> is_spawn x = false)) as [Hc [Hp [Hf Hs]]].
+  { destruct He as [[c [s ->]]|[l ->]]; simpl.
+    - destruct (connected st c); simpl; repeat split; auto; intros x Hx; [destruct Hx as [<-|[]]; reflexivity | destruct Hx].
+    - repeat split; auto. intros x []. }
+  repeat split; auto.
+  intros Hlt n. rewrite waiting_after_fates by auto. rewrite Hf. apply filter_all. intros; reflexivity.
+Qed.
+
+Definition is_reload (e : event) : Prop := (exists c s, e = EReload c s) \/ (exists l, e = ESetServices l).
+
+Lemma reload_keeps_rest cf st tr e : is_reload e ->
+  (fst (step cf st e)).(st_conns) = st.(st_conns) /\ (fst (step cf st e)).(st_owners) = st.(st_owners) /\
+  (forall c, live (tr ++ [(e, snd (step cf st e))]) c = live tr c).
+Proof.
+  intros [[c [s ->]]|[l ->]]; simpl.
+  - destruct (connected st c); simpl; repeat split; intros x; rewrite live_snoc; reflexivity.
+  - repeat split. intros x. rewrite live_snoc. reflexivity.
+Qed.
+
+(* the messages held before a reload are the ones delivered, in order, when the name is taken after it *)
+Corollary held_once_in_order_across_reload cf h st tr e c s k :
+  wk_services cf /\ wk_history h -> wk_event e -> is_reload e -> after cf h = (st, tr) ->
+  connected st c = true -> assoc k st.(st_owners) = None ->
+  let st1 := fst (step cf st e) in
+  let o := snd (step cf st1 (ERequest c s k)) in
+  let W := waiting tr (Wk k) in
+  let allowed := fun w : call => cf.(pol_deliver) (k :: names_of st.(st_owners) c) w.(c_class) in
+  filter is_fwd o = map (fwd_to c) (filter (fun w => w.(c_auto) && live tr w.(c_conn) && allowed w) W) /\
+  filter is_started o = map started_to (filter (fun w => live tr w.(c_conn) && negb w.(c_auto)) W) /\
+  waiting ((tr ++ [(e, snd (step cf st e))]) ++ [(ERequest c s k, o)]) (Wk k) = [].
+Proof.
+  intros [W Wh] We Hr H Hc Ho. cbv zeta.
+  pose proof (after_inv cf h st tr (conj W Wh) H) as I.
+  destruct (reload_keeps_rest cf st tr e Hr) as [Ec [Eo El]].
+  destruct (reload_keeps_pending cf st tr e Hr) as [_ [_ [_ Ew]]].
+  specialize (Ew (i_fated_lt _ _ _ I)).
+  assert (wk_history (h ++ [e])) as Wh'.
+  { intros x Hx. apply in_app_iff in Hx. destruct Hx as [Hx|[<-|[]]]; auto. }
+  pose proof (after_snoc cf h e st tr H) as H'.
+  assert (connected (fst (step cf st e)) c = true) as Hc' by (unfold connected in *; rewrite Ec; exact Hc).
+  assert (assoc k (st_owners (fst (step cf st e))) = None) as Ho' by (rewrite Eo; exact Ho).
+  destruct (held_once_in_order cf (h ++ [e]) _ _ c s k (conj W Wh') H' Hc' Ho') as [F1 [_ [F3 [_ F5]]]].
+  rewrite Eo, Ew in F1. rewrite Ew in F3.
+  repeat split.
+  - rewrite F1. f_equal. apply filter_ext. intros w. rewrite El. reflexivity.
+  - rewrite F3. f_equal. apply filter_ext. intros w. rewrite El. reflexivity.
+  - exact F5.
 Qed.
 
 (* ---------------------------------------------------------------- what the faithful model does NOT satisfy *)
